@@ -37,6 +37,13 @@ enum Sp {
 }
 
 impl Sp {
+    /// (evaluate(x).is_ok(), evaluate_derivative(x).is_ok()) - the two entry points are probed separately
+    fn accepts(&self, x: f64) -> (bool, bool) {
+        match self {
+            Sp::R(s) => (s.evaluate(x).is_ok(), s.evaluate_derivative(x).is_ok()),
+            Sp::C(s) => (s.evaluate(x).is_ok(), s.evaluate_derivative(x).is_ok()),
+        }
+    }
     fn eval(&self, x: f64) -> Result<(C64, C64), String> {
         match self {
             Sp::R(s) => {
@@ -193,8 +200,9 @@ pub fn run_case(case: &Case) -> Outcome {
     {
         let w = xs[nk - 1] - xs[0];
         for x in [xs[0] - 0.01 * w - 1e-9, xs[nk - 1] + 0.01 * w + 1e-9, next_down(xs[0]), next_up(xs[nk - 1])] {
-            if sp.eval(x).is_ok() {
-                return o.fail(format!("evaluation at {x:e} outside the knot range [{:e}, {:e}] returned Ok", xs[0], xs[nk - 1]));
+            let (v_ok, d_ok) = sp.accepts(x);
+            if v_ok || d_ok {
+                return o.fail(format!("{} at {x:e} outside the knot range [{:e}, {:e}] returned Ok", if v_ok { "evaluate" } else { "evaluate_derivative" }, xs[0], xs[nk - 1]));
             }
         }
     }
@@ -351,7 +359,11 @@ fn strategy(t: Tier) -> BoxedStrategy<Case> {
         any::<bool>(),
         gen::fl(-10.0, 5.0),
         // spacings 10^[-1.7, 0] (ratio <= 50)
-        (1usize..maxk).prop_flat_map(|n| proptest::collection::vec(prop_oneof![3 => gen::logu(-1.7, 0.0), 1 => Just(0.25)], n)),
+        prop_oneof![
+            7 => (1usize..maxk).prop_flat_map(|n| proptest::collection::vec(prop_oneof![3 => gen::logu(-1.7, 0.0), 1 => Just(0.25)], n)),
+            // evenly spaced grids (h = 1, dyadic or arbitrary)
+            1 => (1usize..maxk, prop_oneof![Just(1.0), Just(0.5), Just(0.125), gen::logu(-1.7, 0.0)]).prop_map(|(n, h)| vec![h; n]),
+        ],
         proptest::collection::vec(val(), maxk),
         (val(), val()),
         prop_oneof![3 => Just(false), 1 => Just(true)],
@@ -385,7 +397,7 @@ pub fn run(opts: &Opts) -> i32 {
     }
     spec.cases = opts.tier.pick(150_000, 4_000_000);
     spec.essential = vec![("free", 0.3), ("clamped", 0.3), ("complex", 0.3), ("sampled", 0.15), ("invalid", 0.05), ("y-scaled", 0.3), ("loose-polynomial-tolerance", 0.3), ("tolerance-above-knot-spacing", 0.03)];
-    spec.rule = "generated: 2-40 knots, spacings 10^[-1.7,0] (ratio <= 50) inside [-10,10], real and complex ordinates in [-3,3] times a common factor 1 or 10^[-9,3] (or samples of a random cubic for clamped / line for free whose coefficients carry individual factors 10^[-8,0]: gently curved data), random end slopes, polynomial zero-tolerance argument 10^[-14,0] (a fifth of the cases above 1e-4, i.e. also larger than the smallest knot spacing) (the oracle gives it no allowance: it must not move the spline); invalid: < 2 points, mismatched lengths, a decreasing knot pair, evaluation outside the range. Oracle: independent spline from a dense LU solve of the second-derivative system; on every interval values and slopes at both end knots (from inside) and 8 interior points within 64 eps (K(x) + g h^2), K the magnitude of the terms of the piece expanded in powers of x, g the decayed rounding scale of the second derivatives,, interpolation, continuity of the recovered second derivative across knots, zero end curvature (free) / prescribed end slopes (clamped), cubic/line reproduction; Err outside the range and for the invalid class. Non-trivial = >= 4 knots with non-uniform spacing. Distinct = distinct case JSON.".into();
+    spec.rule = "generated: 2-40 knots, spacings 10^[-1.7,0] (ratio <= 50; one case in eight evenly spaced with h = 1, 1/2, 1/8 or arbitrary) inside [-10,10], real and complex ordinates in [-3,3] times a common factor 1 or 10^[-9,3] (or samples of a random cubic for clamped / line for free whose coefficients carry individual factors 10^[-8,0]: gently curved data), random end slopes, polynomial zero-tolerance argument 10^[-14,0] (a fifth of the cases above 1e-4, i.e. also larger than the smallest knot spacing) (the oracle gives it no allowance: it must not move the spline); invalid: < 2 points, mismatched lengths, a decreasing knot pair, evaluation outside the range. Oracle: independent spline from a dense LU solve of the second-derivative system; on every interval values and slopes at both end knots (from inside) and 8 interior points within 64 eps (K(x) + g h^2), K the magnitude of the terms of the piece expanded in powers of x, g the decayed rounding scale of the second derivatives,, interpolation, continuity of the recovered second derivative across knots, zero end curvature (free) / prescribed end slopes (clamped), cubic/line reproduction; Err outside the range (evaluate and evaluate_derivative probed separately, both sides) and for the invalid class. Non-trivial = >= 4 knots with non-uniform spacing. Distinct = distinct case JSON.".into();
     spec.max_shrink_iters = 1500;
     run_spec(spec, opts)
 }
